@@ -22,6 +22,10 @@
 (*                        many names of that tensor were deleted meanwhile *)
 (*   Pickle(n, m)         n = pickle.loads(pickle.dumps(m))                *)
 (*   Del(n)               del n                                            *)
+(*   DropKernels          every compiled kernel object is discarded (cache *)
+(*                        eviction / cache_clear / a TensorMethod going    *)
+(*                        out of scope): outputs outlive their kernels, so *)
+(*                        nothing is freed and nothing changes             *)
 (*   Collect              gc.collect()                                     *)
 (* Release(t) is the system's step: it frees the arrays of an unreachable  *)
 (* struct; user actions wait for it (reference counting is immediate).     *)
@@ -98,6 +102,9 @@ Del(n) == /\ Quiet /\ Bound(n)
           /\ bind' = [bind EXCEPT ![n] = None]
           /\ Log("del", n, n, "") /\ UNCHANGED <<made, freed, nfree>>
 
+DropKernels == /\ Quiet /\ Log("drop_kernels", CHOOSE n \in Names : TRUE, CHOOSE n \in Names : TRUE, "")
+               /\ UNCHANGED <<bind, made, freed, nfree>>
+
 Collect == /\ Quiet /\ Log("collect", CHOOSE n \in Names : TRUE, CHOOSE n \in Names : TRUE, "")
            /\ UNCHANGED <<bind, made, freed, nfree>>
 
@@ -109,7 +116,7 @@ Release(t) == /\ t \in Garbage
 User == \/ \E n \in Names : \E kd \in Kinds : Evaluate(n, kd)
         \/ \E n, m \in Names : EvaluateWith(n, m) \/ Alias(n, m) \/ StructRef(n, m) \/ Pickle(n, m) \/ Iter(n, m)
         \/ \E n \in Names : Read(n) \/ Del(n) \/ Consume(n)
-        \/ Collect
+        \/ Collect \/ DropKernels
 Next == User \/ \E t \in 1..Len(made) : Release(t)
 Spec == Init /\ [][Next]_vars
 
